@@ -258,7 +258,6 @@ func rayIntersectSpecs(thorough bool) []composeSpec {
 			default:
 				return "intersects is returned as a comparison that is true when the segment passes below the point (or when the point is on it)"
 			}
-			return ""
 		},
 	}}
 }
